@@ -27,8 +27,11 @@ LiveAsIs == <<A("alive", "w"), A("ctx1", "r"), R("ctx1"), A("ctx2", "r"), R("ctx
 History == <<A("hist", "w"), R("hist")>>
 RulesGet == <<A("rules", "r"), R("rules")>>
 RulesPost == <<A("rules", "w"), R("rules"), A("rules", "r"), R("rules")>>
-(* context.rs gc_thread *)
-Gc == <<A("hist", "w"), A("alive", "w"), R("alive"), R("hist")>>
+(* context.rs gc_thread: the records of a pass go to the access-log task through a bounded channel (a log sink that does *)
+(* not drain stalls the collector: peer "log") BEFORE the history and registry mutexes are taken                          *)
+Gc == <<P("log"), A("hist", "w"), A("alive", "w"), R("alive"), R("hist")>>
+(* a collector that hands the records over while holding both mutexes (self-test: violates) *)
+GcLocked == <<A("hist", "w"), A("alive", "w"), P("log"), R("alive"), R("hist")>>
 
 (* TLS-wrapped http / socks listener (listeners/http.rs create_context): the TLS accept waits for the client before   *)
 (* the context exists, with no lock held                                                                          *)
@@ -40,10 +43,13 @@ T_Tasks == {"h1", "f3", "live", "gc"}
 ProgTls == [t \in T_Tasks |-> CASE t = "h1" -> HttpTls("c1", "ctx1", "up1") [] t = "f3" -> HttpTls("c3", "ctx3", "up3")
                                  [] t = "live" -> Live [] t = "gc" -> Gc]
 ProgTlsLocked == [ProgTls EXCEPT !["h1"] = HttpTlsLocked("c1", "ctx1", "up1")]
+(* the log sink may stall as well *)
+L_StallSets == SUBSET {"c1", "log"}
+ProgLogLocked == [ProgTls EXCEPT !["gc"] = GcLocked]
 MC_Tasks == {"h1", "s2", "f3", "live", "rpost", "gc"}
 Q_Tasks == {"h1", "f3", "live", "rpost", "gc"}
 MC_Locks == {"alive", "hist", "rules", "ctx1", "ctx2", "ctx3"}
-MC_Peers == {"c1", "c2", "c3", "up1", "up2", "up3"}
+MC_Peers == {"c1", "c2", "c3", "up1", "up2", "up3", "log"}
 (* c3 / up3 belong to the fresh connection that must always be served: never stalled *)
 MC_StallSets == SUBSET {"c1", "c2", "up1"}
 ProgFixed == [t \in MC_Tasks |-> CASE t = "h1" -> Http("c1", "ctx1", "up1") [] t = "s2" -> Socks("c2", "ctx2", "up2")
